@@ -600,6 +600,12 @@ def _make_node(
     high = _node_from_int(high_id, bdd, cache)
     var = context['var_at_level'][level]
     if context['load_order']:
+        # `find_or_add` does not check this
+        i = bdd.level_of_var(var)
+        if i >= low.level or i >= high.level:
+            raise ValueError(
+                f'node {k} at level {i} is not '
+                'above its successors')
         u = bdd.find_or_add(var, low, high)
     else:
         g = bdd.var(var)
